@@ -11,6 +11,7 @@ type EventTimer struct {
 	done  chan struct{}
 	wg    sync.WaitGroup
 	once  sync.Once
+	verifTimerHook
 }
 
 func NewEventTimer(task func()) *EventTimer {
@@ -55,6 +56,10 @@ func (t *EventTimer) Stop() {
 
 func (t *EventTimer) Reset(timeout time.Duration) {
 	if t == nil {
+		return
+	}
+
+	if t.verifReset(timeout) {
 		return
 	}
 
